@@ -50,6 +50,29 @@ Definition keyword_or_ident (w : name) : tk :=
   | None => TIdent
   end.
 
+(* first byte of the UTF-8 encoding of a scalar value *)
+Definition utf8_lead (c : N) : N :=
+  if c <? 128 then c
+  else if c <? 2048 then 192 + c / 64
+  else if c <? 65536 then 224 + c / 4096
+  else 240 + c / 262144.
+
+(* A quirk of the automaton logos 0.14 generates for TokenKind (observed through the verif-hooks
+   lexer function, see DESIGN.md section 9): the Ident regex ends in `\d`, which has multi-byte
+   members.  When a keyword is immediately followed by a character that is NOT an identifier
+   character but whose first UTF-8 byte is also the first byte of some Unicode decimal digit, the
+   automaton has already left the keyword's path for the identifier's when it finds out, and falls
+   back to `Ident` instead of the keyword (e.g. `loop` directly followed by U+1F600, U+0E4F, U+FF0F,
+   U+065F).  Such a text is rejected by the parser either way (the next token is Error). *)
+Definition is_nd_lead (b : N) : bool :=
+  existsb (fun r => (utf8_lead (fst r) =? b) || (utf8_lead (snd r) =? b)) unicode_nd.
+
+Definition ident_kind (w : name) (rest : text) : tk :=
+  match rest with
+  | d :: _ => if (128 <=? d) && is_nd_lead (utf8_lead d) then TIdent else keyword_or_ident w
+  | [] => keyword_or_ident w
+  end.
+
 (* single-character tokens *)
 Definition punct1 (c : N) : option tk :=
   if c =? 44 then Some TComma else if c =? 59 then Some TSemi
@@ -84,7 +107,7 @@ Definition lex_one (s : text) : option (option tk * text * text) :=
     else if is_nl c then Some (Some TEol, [c], r)
     else if is_ident_start c then
       let (w, r') := span_while is_ident_cont r in
-      Some (Some (keyword_or_ident (c :: w)), c :: w, r')
+      Some (Some (ident_kind (c :: w) r'), c :: w, r')
     else if is_dec_start c then
       let (w, r') := span_while is_dec_digit r in Some (Some TDecInt, c :: w, r')
     else if c =? 48 then
